@@ -19,6 +19,7 @@ pub mod c16;
 pub mod c17;
 pub mod c18;
 pub mod c19;
+pub mod conform;
 pub mod difflab;
 pub mod c20;
 pub mod kit;
